@@ -56,6 +56,13 @@ def gen_model(rng):
         pool = [f"{mname}.comp_a", f"{mname}.comp_n"] + [x for x in gn if x != g or rng.random() < 0.15]
         d["graph_metrics"].append({"name": g, "type": "derived", "sql": f"{rng.choice(pool)} {rng.choice('+-*')} {rng.choice(pool)}"})
     rng.shuffle(d["graph_metrics"])
+    if mname not in KW and rng.random() < 0.25:
+        # a cycle that closes through a dependency that is NOT the first one in name order: H is harmless, X refers forward to
+        # G, and G = H op X is registered last — G must be refused (or else be usable)
+        h, x, g = rng.choice([("g0", "g2", "g1"), ("g0", "g1", "g2"), ("g1", "g3", "g2")])
+        trio = [{"name": h, "type": "derived", "sql": f"{mname}.comp_a + {mname}.comp_n"}, {"name": x, "type": "derived", "sql": f"{g} * 2"}]
+        rng.shuffle(trio)
+        d["graph_metrics"] = trio + [{"name": g, "type": "derived", "sql": rng.choice([f"{h} + {x}", f"{x} - {h}"])}]
     return d
 
 
@@ -90,6 +97,7 @@ def single_field_queries(d, layer=None):
     # registered — e.g. because that one was refused as circular — is a dangling reference, not an accepted definition
     acc = set(getattr(layer, "accepted_graph_metrics", []) if layer is not None else [])
     gdeps = {g["name"]: {t for t in re.findall(r"\bg\d\b", g["sql"])} for g in d.get("graph_metrics", [])}
+    acc &= set(gdeps)
     closed = set(acc)
     while True:
         drop = {g for g in closed if not gdeps[g] <= closed}
